@@ -2,9 +2,9 @@ package sym
 
 import (
 	"fmt"
-	"sort"
 	"go/types"
 	"math/big"
+	"sort"
 	"strings"
 
 	"golang.org/x/tools/go/ssa"
@@ -34,7 +34,7 @@ func reg(names string, f intrFn) {
 	}
 }
 
-func sv(v Value) StrV { return v.(StrV) }
+func sv(v Value) StrV      { return v.(StrV) }
 func tv(v Value) *smt.Term { return v.(*smt.Term) }
 
 func init() {
